@@ -104,6 +104,8 @@ class Interp(AstMixin, Engine):
         self.enum_tags: dict[int, type] = {}
         self.assumptions_used: set[str] = set()
         self.lock_events: list[tuple] = []
+        self.guarded_fields: set[tuple[str, str]] = set()
+        self.guard_violations: list[str] = []
         from .repo_models import install
 
         install(self)
@@ -178,6 +180,8 @@ class Interp(AstMixin, Engine):
 
     def instance_attr(self, obj: Any, name: str) -> Any:
         if isinstance(obj, SObj):
+            if self.guarded_fields and (obj.cls.__name__, name) in self.guarded_fields and not self.held_locks and not self.is_fresh(obj):
+                self.guard_violations.append(f"read of {obj.cls.__name__}.{name} @ {self.cur_site()}")
             return obj.fields.get(name, _MISSING)
         ov = self.overlay.get((id(obj), name), _MISSING)
         if ov is not _MISSING:
@@ -370,6 +374,8 @@ class Interp(AstMixin, Engine):
                 return
             if not self.is_fresh(obj):
                 self.note_mutation(obj, name)
+                if self.guarded_fields and (obj.cls.__name__, name) in self.guarded_fields and not self.held_locks:
+                    self.guard_violations.append(f"write of {obj.cls.__name__}.{name} @ {self.cur_site()}")
             self.set_field(obj, name, value)
             return
         if isinstance(obj, ExcValue):
